@@ -426,7 +426,8 @@ func c16Anon(t *rapid.T, ev *evProp) {
 
 const c16Rule = "three generated families. (ECIES) the five ECIES groups (Ed25519, Edwards-vartime prime/full, P-256, QR-512) x hash {nil, SHA-256, SHA-512} x high-entropy messages of length {0,1,15..17,31..33,64,1000,4096,any<=4096}: decrypt(encrypt(m)) = m; no 16-byte plaintext block appears at its offset in the ciphertext; one mutation from {other key, any bit flip, bit flip in the ephemeral point, truncation, extension, other hash} must give an error (or the same plaintext when only an equivalent encoding of the same point was produced), never a panic. " +
 	"(IBE) every (suite, group assignment) whose identity group is hashable; CCA: messages up to the hash size round-trip and are hidden, longer ones are refused (or hidden), another identity's key / altered U / flipped, truncated or extended V, W are errors; CPA on G1: round trip and no plaintext block in the clear for every accepted message, lengths up to hash size + 48. " +
-	"(anonymous-set) suites Ed25519/P-256/BN256-G1/Edwards-vartime, sets of 1..6 keys, every recipient index, messages 0..600: round trip on a copy, hidden plaintext; wrong key, wrong index, a bit flip anywhere / in another recipient's header slot / own slot / body / MAC, truncation, extension are errors. non-trivial = every case with an applicable negative mutation or a boundary length; distinct = distinct rendered case"
+	"(anonymous-set) suites Ed25519/P-256/BN256-G1/Edwards-vartime, sets of 1..6 keys, every recipient index, messages 0..600: round trip on a copy, hidden plaintext; wrong key, wrong index, a bit flip anywhere / in another recipient's header slot / own slot / body / MAC, truncation, extension are errors. non-trivial = every case with an applicable negative mutation or a boundary length; distinct = distinct rendered case" +
+	" Added after the sensitivity rounds: IBE-CCA sweep flipping one bit in every byte position of V and W."
 
 func TestC16_ECIES(t *testing.T) {
 	ev := evFor("C16")
